@@ -36,6 +36,7 @@ def load_known(prop):
 def standard_worker(mod, tier, seed):
     def worker(i, n):
         H.boot(serial_pool=getattr(mod, "SERIAL_POOL", True))
+        H.fresh_aggregator_locks()
         if hasattr(mod, "prepare"):
             mod.prepare(tier)
         if hasattr(mod, "on_worker_start"):
